@@ -167,7 +167,23 @@ def toks_text(toks) -> str:
 def split_statements(toks: List[Tuple[str, Any]]) -> List[List[Tuple[str, Any]]]:
     """Top-level statements separated by ';' (brace / paren depth 0)."""
     out, cur, depth = [], [], 0
+
+    def has_stmt(tok) -> bool:
+        k, v = tok
+        if k == 'rep':
+            return any(x == ('p', ';') for x in lex(v.elem))
+        if k == 'alt':
+            return any(x == ('p', ';') for x in lex(v.a)) or any(x == ('p', ';') for x in lex(v.b))
+        return False
+
     for t in toks:
+        if depth == 0 and t[0] in ('rep', 'alt') and has_stmt(t):
+            # a block of statements under a repetition / alternative: its own unit
+            if cur:
+                out.append(cur)
+            out.append([t])
+            cur = []
+            continue
         if t[0] == 'p' and t[1] in '({[':
             depth += 1
         elif t[0] == 'p' and t[1] in ')}]':
